@@ -254,6 +254,7 @@ func runStatement(store storage.Store, text string, chanSize, bulkSize int) (res
 // ---- query generation ----
 
 type qgen struct {
+	lastPO []string // predicate / object bindings and aliases of the clause generated last
 	eqOnly bool // HAVING comparisons are equalities only (statements over stores that hold blank nodes)
 	r    *rng
 	g    *storeGen
@@ -321,7 +322,15 @@ func (q *qgen) clauseText(level int) string {
 	// c: what the clause means, written down by the generator next to the text it produces (never by way of
 	// the BQL parser): the reference is run on it, so a hook that builds another clause from the text shows
 	c := &semantic.GraphClause{}
-	defer func() { q.lastExp = encClause(c) }()
+	defer func() {
+		q.lastExp = encClause(c)
+		q.lastPO = nil
+		for _, b := range []string{c.PBinding, c.PAlias, c.OBinding, c.OAlias} {
+			if b != "" {
+				q.lastPO = append(q.lastPO, b)
+			}
+		}
+	}()
 	// Alias names are fresh within the clause: a name shared between an ID alias of a node object and
 	// another binding of the same clause has a behaviour pinned by the suite ("?c \"p\"@[] ?gc ID ?gc":
 	// the id wins) that lies outside the fragment the properties speak about.
@@ -507,7 +516,15 @@ func (q *qgen) clauseFrom(t *triple.Triple, vm map[string]string, level int) str
 	}
 	var b strings.Builder
 	c := &semantic.GraphClause{}
-	defer func() { q.lastExp = encClause(c) }()
+	defer func() {
+		q.lastExp = encClause(c)
+		q.lastPO = nil
+		for _, b := range []string{c.PBinding, c.PAlias, c.OBinding, c.OAlias} {
+			if b != "" {
+				q.lastPO = append(q.lastPO, b)
+			}
+		}
+	}()
 	if tp := t.Predicate(); len(earlier) > 0 && tp.Type() == predicate.Temporal && r.chance(1, 10) {
 		// a clause that extracts nothing but the anchor of an interval-bounded predicate, under the name of a time an
 		// earlier clause bound: constants everywhere else; it holds for a row only if a matching triple is anchored
@@ -762,6 +779,7 @@ func (q *qgen) queryText(graphs []string) string {
 	}
 	level := r.intn(2)
 	var cls, exps []string
+	var poOf [][]string
 	vm := map[string]string{}
 	for i := 0; i < n; i++ {
 		c := q.clauseText(level)
@@ -769,6 +787,7 @@ func (q *qgen) queryText(graphs []string) string {
 			c = q.clauseFrom(q.g.uni[ids[r.intn(len(ids))]], vm, level)
 		}
 		e := q.lastExp
+		poOf = append(poOf, append([]string{}, q.lastPO...))
 		if i > 0 && ((q.mode == "optional" && r.chance(1, 2)) ||
 			// OPTIONAL under the other stages too: NULLs reach GROUP BY keys, aggregates, ORDER BY keys, HAVING operands
 			(!q.meta && (q.mode == "group" || q.mode == "having" || q.mode == "order" || q.mode == "limit") && r.chance(1, 7))) {
@@ -793,6 +812,23 @@ func (q *qgen) queryText(graphs []string) string {
 		exps[0] = encClause(&semantic.GraphClause{SBinding: "?s0", PBinding: "?p0", OBinding: "?o0"})
 	}
 	where := strings.Join(cls, " . ")
+	if !q.meta && len(poOf) == len(cls) && r.chance(1, 6) {
+		// FILTER on a predicate or object binding of one clause (a storage-level filter on that clause's look-ups):
+		// isTemporal / isImmutable keep the triples whose predicate (or predicate-valued object) is of that kind
+		i := r.intn(len(poOf))
+		if len(poOf[i]) > 0 {
+			b := poOf[i][r.intn(len(poOf[i]))]
+			op := []string{"isTemporal", "isImmutable", "isTemporal", "isImmutable", "latest", "ISTEMPORAL"}[r.intn(6)]
+			where += " . filter " + op + "(" + b + ")"
+			q.hist["filter-"+strings.ToLower(op)]++
+			if r.chance(1, 5) && len(poOf) > 1 {
+				j := r.intn(len(poOf))
+				if j != i && len(poOf[j]) > 0 {
+					where += " . filter " + []string{"isTemporal", "isImmutable"}[r.intn(2)] + "(" + poOf[j][r.intn(len(poOf[j]))] + ")"
+				}
+			}
+		}
+	}
 	// bindings outside quoted/bracketed parts
 	bs := bindingsIn(strings.NewReplacer(`"p"`, "", `"q"`, "").Replace(where))
 	var proj, xp []string
